@@ -1,5 +1,161 @@
+// synth.go — blocks assembled by the harness' own CBOR writer from pieces of the real
+// fixtures (shared verbatim by c07 and c01). They add the shapes the real fixtures lack:
+// Dijkstra transactions, Conway witness sets with scripts/datums in both the plain and the
+// #6.258 set encoding, and containers with >= 24 elements (where the shortest definite
+// header is 2 bytes and differs in size from the indefinite one).
 package main
 
-import "verif/space"
+import (
+	"verif/space"
+)
 
-func synthetic(fx []space.Fixture) []space.Fixture { return nil }
+func fxByName(fx []space.Fixture, name string) *space.Node {
+	for i := range fx {
+		if fx[i].Name == name {
+			n, err := space.Parse(fx[i].Cbor)
+			if err != nil {
+				return nil
+			}
+			return n
+		}
+	}
+	return nil
+}
+
+func mapPut(m *space.Node, key uint64, v *space.Node) {
+	m.Items = append(m.Items, space.U(key), v)
+}
+
+// synthetic returns the harness-built blocks. A block whose ingredients are missing is
+// left out (the caller reports how many fixtures it got).
+func synthetic(fx []space.Fixture) []space.Fixture {
+	var out []space.Fixture
+	conway := fxByName(fx, "conway")
+	mary := fxByName(fx, "mary")
+	alonzo := fxByName(fx, "alonzo")
+	dijkstra := fxByName(fx, "dijkstra")
+	byron := fxByName(fx, "byron-main")
+
+	// (1) Dijkstra block with transactions: the repository's Dijkstra transaction fixture
+	// plus Conway transactions that carry no array-encoded redeemers.
+	if dijkstra != nil && conway != nil {
+		var txs []*space.Node
+		if b, err := space.ReadHexFixture("ledger/dijkstra/testdata/cardano_ledger_dijkstra_w30_tx.hex"); err == nil {
+			if tx, err := space.Parse(b); err == nil && tx.Major == 4 && len(tx.Items) == 3 {
+				txs = append(txs, tx)
+			}
+		}
+		l, err := Locate(conway, 7)
+		if err == nil {
+			added := 0
+			for i, t := range l.Txs {
+				arrayRdm := false
+				if r := t.WitN.MapGetUint(5); r != nil && r.Major == 4 {
+					arrayRdm = true
+				}
+				if arrayRdm || added >= 3 {
+					continue
+				}
+				aux := space.Null()
+				if t.MetaN != nil {
+					aux = t.MetaN
+				}
+				txs = append(txs, space.A(conway.Items[1].Items[i], conway.Items[2].Items[i], aux))
+				added++
+			}
+		}
+		if len(txs) > 0 {
+			blk := space.A(dijkstra.Items[0], space.A(space.Null(), space.A(txs...), space.Null(), space.Null()))
+			out = append(out, space.Fixture{Name: "synth-dijkstra-txs", Type: 8, Cbor: blk.Encode()})
+		}
+	}
+
+	// (2) Conway block whose witness sets carry native/Plutus scripts and datums, tx 0 in the
+	// #6.258 set encoding, tx 1 as plain arrays.
+	if conway != nil && mary != nil && alonzo != nil {
+		lm, e1 := Locate(mary, 4)
+		la, e2 := Locate(alonzo, 5)
+		var native, plutus, datum *space.Node
+		if e1 == nil {
+			for _, t := range lm.Txs {
+				for _, s := range t.Scripts {
+					if s.Lang == 0 && native == nil {
+						native = s.N
+					}
+				}
+			}
+		}
+		if e2 == nil {
+			for _, t := range la.Txs {
+				for _, s := range t.Scripts {
+					if s.Lang == 1 && plutus == nil {
+						plutus = s.N
+					}
+				}
+				if len(t.Datums) > 0 && datum == nil {
+					datum = t.WitN.MapGetUint(4).Items[0]
+				}
+			}
+		}
+		if native != nil && plutus != nil && datum != nil && len(conway.Items[2].Items) >= 2 {
+			blk := conway.Clone()
+			second := space.B([]byte("second")) // a second, different datum
+			for ti := 0; ti < 2; ti++ {
+				w := blk.Items[2].Items[ti]
+				wrap := func(items ...*space.Node) *space.Node {
+					cl := make([]*space.Node, len(items))
+					for i := range items {
+						cl[i] = items[i].Clone()
+					}
+					if ti == 0 {
+						return space.Tag(258, space.A(cl...))
+					}
+					return space.A(cl...)
+				}
+				native2 := space.A(space.U(1), space.A(native)) // all-of [native]
+				mapPut(w, 1, wrap(native, native2))
+				mapPut(w, 3, wrap(plutus))
+				mapPut(w, 4, wrap(datum, second))
+				mapPut(w, 6, wrap(plutus))
+				mapPut(w, 7, wrap(plutus, space.B(append([]byte{0x46}, plutus.Bytes[:6]...))))
+			}
+			out = append(out, space.Fixture{Name: "synth-conway-scripts", Type: 7, Cbor: blk.Encode()})
+		}
+	}
+
+	// (3) Conway block with 25 transactions, the first with 25 outputs.
+	if conway != nil && len(conway.Items[1].Items) > 0 {
+		blk := conway.Clone()
+		nb := len(blk.Items[1].Items)
+		for i := nb; i < 25; i++ {
+			blk.Items[1].Items = append(blk.Items[1].Items, conway.Items[1].Items[i%nb].Clone())
+			blk.Items[2].Items = append(blk.Items[2].Items, conway.Items[2].Items[i%nb].Clone())
+		}
+		if outs := blk.Items[1].Items[0].MapGetUint(1); outs != nil && len(outs.Items) > 0 {
+			o0 := outs.Items[0]
+			for len(outs.Items) < 25 {
+				outs.Items = append(outs.Items, o0.Clone())
+			}
+		}
+		out = append(out, space.Fixture{Name: "synth-conway-25", Type: 7, Cbor: blk.Encode()})
+	}
+
+	// (4) Byron main block with 25 transactions, the first with 25 outputs.
+	if byron != nil && len(byron.Items) == 3 && len(byron.Items[1].Items) == 4 && len(byron.Items[1].Items[0].Items) > 0 {
+		blk := byron.Clone()
+		pay := blk.Items[1].Items[0]
+		np := len(pay.Items)
+		for i := np; i < 25; i++ {
+			pay.Items = append(pay.Items, byron.Items[1].Items[0].Items[i%np].Clone())
+		}
+		outs := pay.Items[0].Items[0].Items[1]
+		if len(outs.Items) > 0 {
+			o0 := outs.Items[0]
+			for len(outs.Items) < 25 {
+				outs.Items = append(outs.Items, o0.Clone())
+			}
+		}
+		out = append(out, space.Fixture{Name: "synth-byron-25", Type: 1, Cbor: blk.Encode()})
+	}
+	return out
+}
